@@ -36,7 +36,7 @@ theorem opensQuery_expand (ts : List (Tok α)) (ps : List (List (Tok α))) (rest
       | nil => simp [expand, opensQuery]
       | cons p ps =>
         simp only [headNotIn, Bool.not_eq_true'] at hh
-        simp only [expand, hh]; split <;> simp [opensQuery]
+        simp only [expand, hh]; split <;> (try split) <;> simp [opensQuery]
     | kw k => simp only [expand, List.cons_append]; cases k <;> rfl
     | _ => simp [expand, opensQuery]
 
@@ -64,7 +64,10 @@ theorem good_false_head (inn : α) (prev : Option (Tok α)) (i d : Nat) (ts : Li
         have hs : isSubCode k = false := by
           simp only [isInCode, decide_eq_true_eq] at hk
           simp [isSubCode]; omega
-        cases ps <;> simp [good, hs, hk] at hg
+        have he : isExCode k = false := by
+          simp only [isInCode, decide_eq_true_eq] at hk
+          simp [isExCode]; omega
+        cases ps <;> simp [good, hs, he, hk] at hg
       · simpa using hk
     | _ => rfl
 
@@ -114,13 +117,17 @@ theorem fold_expand {β : Type} (inn : α) (P : List (Tok α) → Option (β × 
       cases qps with
       | nil =>
         simp only [List.map_nil, good] at hg
-        split at hg
-        · simp at hg
-        · split at hg
-          · simp at hg
-          · have := ih ts hl' (some (.atom k)) i d [] n (by simpa using hg) hP (by simp [expand] at hn ⊢; omega)
-            simp at this
-            simp [expand, fold, this]
+        by_cases h1 : isSubCode k = true
+        · simp [h1] at hg
+        · by_cases h2 : isExCode k = true
+          · simp [h1, h2] at hg
+          · by_cases h3 : isInCode k = true
+            · simp [h1, h2, h3] at hg
+            · simp only [Bool.not_eq_true] at h1 h2 h3
+              simp only [h1, h2, h3] at hg
+              have := ih ts hl' (some (.atom k)) i d [] n (by simpa using hg) hP (by simp [expand] at hn ⊢; omega)
+              simp at this
+              simp [expand, fold, this]
       | cons qp qps =>
         by_cases hk : isSubCode k = true
         · simp only [List.map_cons, good, hk, if_true, Bool.and_eq_true, Bool.not_eq_true', beq_iff_eq] at hg
@@ -133,13 +140,24 @@ theorem fold_expand {β : Type} (inn : α) (P : List (Tok α) → Option (β × 
           simp only [List.map_cons, expand, hk, if_true, List.cons_append, List.append_assoc, fold]
           simp [opensQuery_append hop, hctx, hPq, this, hnin]
         · simp only [Bool.not_eq_true] at hk
-          have hki : isInCode k = false := by
-            have := good_false_head inn prev i d (.atom k :: ts) _ hg
-            simpa [headNotIn] using this
-          simp only [good, hk, hki] at hg
-          have := ih ts hl' (some (.atom k)) i d (qp :: qps) n (by simpa using hg) hP (by simp [expand, hk, hki] at hn ⊢; omega)
-          simp only [List.map_cons] at this
-          simp [expand, hk, hki, fold, this]
+          by_cases he : isExCode k = true
+          · -- `EXISTS ( query )`
+            simp only [List.map_cons, good, hk, he, if_true, Bool.false_eq_true, if_false, Bool.and_eq_true, Bool.not_eq_true', beq_iff_eq] at hg
+            obtain ⟨⟨⟨⟨hki, _⟩, hop⟩, _⟩, hg'⟩ := hg
+            have hPq := hP qp (by simp) (expand ts (qps.map (·.2)) ++ rest)
+            have hlen : (expand ts (qps.map (·.2)) ++ rest).length < n := by
+              simp [expand, hk, he] at hn ⊢; omega
+            have := ih ts hl' (some (.atom k)) (i + 1) d qps n hg' (fun q hq => hP q (by simp [hq])) hlen
+            simp only [List.map_cons, expand, hk, he, if_true, Bool.false_eq_true, if_false, List.cons_append, List.append_assoc, fold]
+            simp [opensQuery_append hop, hPq, this, ← hki]
+          · simp only [Bool.not_eq_true] at he
+            have hki : isInCode k = false := by
+              have := good_false_head inn prev i d (.atom k :: ts) _ hg
+              simpa [headNotIn] using this
+            simp only [good, hk, he, hki] at hg
+            have := ih ts hl' (some (.atom k)) i d (qp :: qps) n (by simpa using hg) hP (by simp [expand, hk, he, hki] at hn ⊢; omega)
+            simp only [List.map_cons] at this
+            simp [expand, hk, he, hki, fold, this]
     | lpar =>
       simp only [good, Bool.and_eq_true, Bool.or_eq_true, Bool.not_eq_true'] at hg
       obtain ⟨hc, hg'⟩ := hg
@@ -161,10 +179,14 @@ theorem fold_expand {β : Type} (inn : α) (P : List (Tok α) → Option (β × 
             have hin' := hin
             simp only [isInCode, decide_eq_true_eq] at hin'
             simp [isSubCode]; omega
+          have hkex : isExCode k = false := by
+            have hin' := hin
+            simp only [isInCode, decide_eq_true_eq] at hin'
+            simp [isExCode]; omega
           cases qps with
-          | nil => simp [good, hksub, hin] at hg'
+          | nil => simp [good, hksub, hkex, hin] at hg'
           | cons qp qps =>
-            simp only [List.map_cons, good, hksub, hin, if_true, Bool.false_eq_true, if_false, Bool.and_eq_true, beq_iff_eq] at hg'
+            simp only [List.map_cons, good, hksub, hkex, hin, if_true, Bool.false_eq_true, if_false, Bool.and_eq_true, beq_iff_eq] at hg'
             obtain ⟨⟨⟨⟨hpin, hki⟩, hop⟩, hnr⟩, hg2⟩ := hg'
             cases ts2 with
             | nil => simp [nextIsRpar] at hnr
@@ -174,9 +196,9 @@ theorem fold_expand {β : Type} (inn : α) (P : List (Tok α) → Option (β × 
               have hPq := hP qp (by simp) (expand ts3 (qps.map (·.2)) ++ rest)
               have hl4 : (Tok.rpar :: ts3 : List (Tok α)).length ≤ m := by simp at hl' ⊢; omega
               have := ih (.rpar :: ts3) hl4 (some (.atom k)) (i + 1) (d + 1) qps n hg2
-                (fun q hq => hP q (by simp [hq])) (by simp [expand, hksub, hin] at hn ⊢; omega)
+                (fun q hq => hP q (by simp [hq])) (by simp [expand, hksub, hkex, hin] at hn ⊢; omega)
               simp only [expand, List.cons_append] at this
-              simp only [List.map_cons, expand, hksub, hin, if_true, Bool.false_eq_true, if_false, List.cons_append, List.append_assoc, fold]
+              simp only [List.map_cons, expand, hksub, hkex, hin, if_true, Bool.false_eq_true, if_false, List.cons_append, List.append_assoc, fold]
               simp [opensQuery_append hop, isInTok_noFold inn prev hpin, hPq, hpin, this, ← hki]
             | _ => simp [nextIsRpar] at hnr
         | _ => exact absurd rfl hh
@@ -190,9 +212,10 @@ theorem fold_expand {β : Type} (inn : α) (P : List (Tok α) → Option (β × 
       have := ih ts hl' (some (.sym t v)) i d qps n hg hP (by simp [expand] at hn ⊢; omega)
       simp [expand, fold, this]
     | lit w =>
-      simp only [good] at hg
-      have := ih ts hl' (some (.lit w)) i d qps n hg hP (by simp [expand] at hn ⊢; omega)
-      simp [expand, fold, this]
+      simp only [good, Bool.and_eq_true, bne_iff_ne, ne_eq] at hg
+      obtain ⟨hw, hg'⟩ := hg
+      have := ih ts hl' (some (.lit w)) i d qps n hg' hP (by simp [expand] at hn ⊢; omega)
+      simp [expand, fold, hw, this]
     | kw k =>
       simp only [good] at hg
       have := ih ts hl' (some (.kw k)) i d qps n hg hP (by simp [expand] at hn ⊢; omega)
